@@ -77,6 +77,7 @@ pub fn run(ctx: &Ctx) -> Outcome {
         // the same calls from a thread-local destructor while a thread exits (see exitprobe.rs)
         let mut at_exit = Report::new();
         crate::exitprobe::check("virtual_sign", "lockstep_refsign", &mut at_exit);
+        crate::exitprobe::check_migration("virtual_sign", "lockstep_refsign", &mut at_exit);
         report.merge(at_exit);
     }
     let own_cells = report.set_len("matrix_own_state_x_kind");
